@@ -186,7 +186,9 @@ Definition RsetSpecialHeader (r : resp) (key value : bytes) : option resp :=
           end
         else if ci strContentEncoding key then Some (RSetContentEncodingBytes r value)
         else if ci strConnection key then
-          if beq strClose value then Some (RSetConnectionClose r)
+          if beq strClose value then
+            (* SetConnectionClose, then "Connection can only be set once: drop an earlier value" *)
+            Some (with_rh r (with_hh (hSetConnectionClose (rh r)) (delAllArgsStable (hh (rh r)) key)))
           else Some (with_rh r (hsetNonSpecial (hResetConnectionClose (rh r)) key value))
         else None
       else if f =? 115 (* s *) then
@@ -412,7 +414,8 @@ Definition QsetSpecialHeader (q : req) (key value : bytes) : option req :=
           | None => Some q
           end
         else if ci strConnection key then
-          if beq strClose value then Some (QSetConnectionClose q)
+          if beq strClose value then
+            Some (with_qh q (with_hh (hSetConnectionClose (qh q)) (delAllArgsStable (hh (qh q)) key)))
           else Some (with_qh q (hsetNonSpecial (hResetConnectionClose (qh q)) key value))
         else if ci strCookie key then
           let q := collectCookies q in
